@@ -323,6 +323,84 @@ def rule_report_complete(ctx, rep, rule_id="R-REPORT-COMPLETE"):
         raise AnalysisError("run() has no `return 0`")
 
 
+def rule_model_faithful(ctx, rep, rule_id="R-MODEL-FAITHFUL"):
+    """Shared by C03 / C15."""
+    rep.rule(
+        rule_id,
+        "(a) the pydantic validators of the report models (codemodder.codetf) only check, or fill in a value that is missing (`x = x or "
+        "default`): none returns or stores a rewritten value -- the report would then name a path / line / diff other than what the pipelines "
+        "produced and wrote; (b) outside its construction nothing assigns to or mutates a ChangeSet's `changes`, `diff` or `path` (a list of "
+        "changes filtered after the pipeline's own non-empty checks can end up empty)",
+        min_instances=3,
+    )
+    mod = ctx.prog.module("codemodder.codetf")
+    n = 0
+    for c in mod.classes.values():
+        for m in c.methods.values():
+            decos = [d.split("(")[0].split(".")[-1] for d in m.decorators()]
+            if not any(d in ("model_validator", "field_validator", "validator", "root_validator", "field_serializer", "model_serializer") for d in decos):
+                continue
+            n += 1
+            pp = m.positional_params()
+            val = pp[0] if any(d == "model_validator" for d in decos) and pp else (pp[1] if len(pp) > 1 else None)
+            bad = None
+            if any(d in ("field_serializer", "model_serializer") for d in decos):
+                bad = m.node  # a serializer changes what is written into the report by definition
+            for x in walk_no_nested(m.node):
+                if isinstance(x, ast.Return) and not (isinstance(x.value, ast.Name) and x.value.id == val):
+                    bad = bad or x
+                if isinstance(x, (ast.Assign, ast.AugAssign)):
+                    tgts = x.targets if isinstance(x, ast.Assign) else [x.target]
+                    for t in tgts:
+                        if isinstance(t, ast.Attribute) and isinstance(t.value, ast.Name) and t.value.id == val:
+                            # filling a missing value: `self.f = self.f or <default>`
+                            v = x.value if isinstance(x, ast.Assign) else None
+                            fills = isinstance(v, ast.BoolOp) and isinstance(v.op, ast.Or) and unparse(v.values[0]) == unparse(t)
+                            if not fills:
+                                bad = bad or x
+                        elif isinstance(t, ast.Name) and t.id == val:
+                            bad = bad or x
+            rep.check(rule_id, m.qname, m.loc(bad if isinstance(bad, ast.AST) else None), bad is None, "validator-checks-only",
+                      f"`{unparse(bad)[:70] if bad is not None and not isinstance(bad, ast.FunctionDef) else m.name}`: the report model rewrites the value it is given" if bad is not None else "")
+    if n < 3:
+        raise AnalysisError(f"only {n} validators found on the CodeTF models")
+    # (b) who may write a ChangeSet's fields
+    writers = []
+    for fn in ctx.prog.live_functions():
+        if not fn.module.name.startswith(("codemodder.", "core_codemods.")):
+            continue
+        r = None
+        for x in walk_no_nested(fn.node):
+            tgt = None
+            if isinstance(x, (ast.Assign, ast.AugAssign)):
+                for t in (x.targets if isinstance(x, ast.Assign) else [x.target]):
+                    while isinstance(t, ast.Subscript):
+                        t = t.value
+                    if isinstance(t, ast.Attribute) and t.attr in ("changes", "diff"):
+                        tgt = t
+            elif isinstance(x, ast.Delete):
+                for t in x.targets:
+                    while isinstance(t, ast.Subscript):
+                        t = t.value
+                    if isinstance(t, ast.Attribute) and t.attr in ("changes", "diff"):
+                        tgt = t
+            elif isinstance(x, ast.Call) and isinstance(x.func, ast.Attribute) and x.func.attr in ("append", "extend", "remove", "pop", "clear", "insert", "sort", "reverse") \
+                    and isinstance(x.func.value, ast.Attribute) and x.func.value.attr == "changes":
+                tgt = x.func.value
+            if tgt is None:
+                continue
+            recv = tgt.value
+            if isinstance(recv, ast.Name) and recv.id in ("self", "cls"):
+                continue  # a transformer's own list of changes (XMLTransformer.changes, visitors), not a ChangeSet
+            r = r or ctx.resolver(fn)
+            t = r.type_of(recv) or ""
+            if t and not t.endswith("ChangeSet"):
+                continue
+            writers.append((fn, x))
+    rep.check(rule_id, "codemodder.codetf.ChangeSet", writers[0][0].loc(writers[0][1]) if writers else "src/codemodder/codetf.py:1", not writers, "changeset-not-edited-after-construction",
+              f"`{unparse(writers[0][1])[:70]}` in {writers[0][0].qname} edits a changeset after it was built: its changes / diff no longer describe what the pipeline did" if writers else "")
+
+
 def Resolver_expand(ctx, fn, e):
     return ctx.resolver(fn).expand(e)
 
@@ -340,6 +418,7 @@ def check(ctx, rep):
     rule_description_nonempty(ctx, rep)
     rule_sast_metadata(ctx, rep)
     rule_report_complete(ctx, rep)
+    rule_model_faithful(ctx, rep)
     from .c03 import rule_line_unit
 
     rule_line_unit(ctx, rep)
